@@ -89,7 +89,7 @@ def written_fields(prog, fn, var, record, depth=1):
 
 # ---------------------------------------------------------------------------
 def strong_guarantee(prog, fn, graph, visible_roots, fresh_calls=("lzma_alloc", "lzma_alloc_zero"),
-                     ok_values=(0,), effects=None):
+                     ok_values=(0,), effects=None, canonical=None):
     """Check: on every path ending in an error return, no store through a pointer
     derived from `visible_roots` (parameter names) has happened, except stores that are
     undone (X = saved copy of X) before the return.
@@ -158,6 +158,9 @@ def strong_guarantee(prog, fn, graph, visible_roots, fresh_calls=("lzma_alloc", 
             rs = ex.strip(r) if r is not None else None
             if op == "=" and rs is not None and rs.get("k") == "var" and saved.get(rs["n"]) == p:
                 cur = {x for x in cur if x[0] != p}       # restored
+                continue
+            if op == "=" and canonical and canonical.get(_pshow(p)) == ex.show(r):
+                cur = {x for x in cur if x[0] != p}       # restored to its invariant value
                 continue
             if not any(x[0] == p for x in cur):
                 cur.add((p, ex.line(node)))
